@@ -653,6 +653,12 @@ def check_doubling(opname, family, per_size, res, part):
             # python-level calls: deterministic step count; quadratic work shows as a ratio -> 4
             # (measured on the unchanged tree: every linear operation has ratio <= 2.002, the
             #  quadratic ones >= 3.5)
+            # loop iterations on their own: a scan that calls nothing is hidden behind the calls of everything else
+            if x["calls"] and y.get("jumps", 0) > 2.25 * x.get("jumps", 0) + 2000:
+                res.violation(part, "superlinear:%s:%s" % (op, opclass(opname)),
+                              "%s of %s %s: loop iterations grow from %d (n=%d) to %d (n=%d): super-linear"
+                              % (op, opname, family, x.get("jumps", 0), a, y.get("jumps", 0), c),
+                              {"operator": opname, "family": family, "n": c, "op": op, "double_from": a})
             xs, ys = x["calls"] + x.get("jumps", 0), y["calls"] + y.get("jumps", 0)
             if x["calls"] and ys > 2.25 * xs + 2000:
                 res.violation(part, "superlinear:%s:%s" % (op, opclass(opname)),
